@@ -43,6 +43,8 @@ def main():
     if a.only:
         want = set(a.only.split(","))
         ids = [i for i in ids if i in want]
+    else:
+        ids = [i for i in ids if not json.load(open(os.path.join(SEEDED, i, "meta.json"))).get("retired")]
     results = []
     for sid in ids:
         d = os.path.join(SEEDED, sid)
